@@ -72,7 +72,9 @@ var special = map[string]bool{"script": true, "style": true, "title": true, "tex
 
 func tagName(t *rapid.T) string {
 	for {
-		n := rapid.OneOf(rapid.SampledFrom([]string{"a", "b", "div", "p", "br", "img", "h1", "x-y", "scriptx", "styl", "svgs", "mat", "textare", "tit", "custom-element", "x[0]yzabc", "blockquote", "my@tag`x{y"}), rapid.StringMatching(`[a-z][a-z0-9-]{0,5}`)).Draw(t, "tag")
+		n := rapid.OneOf(rapid.SampledFrom([]string{"a", "b", "div", "p", "br", "img", "h1", "x-y", "scriptx", "styl", "svgs", "mat", "textare", "tit", "custom-element", "x[0]yzabc", "blockquote", "my@tag`x{y",
+			// elements that the HTML standard parses in special ways but the statement does not list: ordinary tags here
+			"noembed", "noframes", "noscript", "template", "select", "option", "listing", "pre", "object", "embed"}), rapid.StringMatching(`[a-z][a-z0-9-]{0,5}`)).Draw(t, "tag")
 		if !special[n] {
 			return randCase(t, n)
 		}
@@ -84,6 +86,10 @@ func (g *docgen) region() string {
 	t := g.t
 	var sb strings.Builder
 	sb.WriteString(g.tmpl[0])
+	if rapid.IntRange(0, 5).Draw(t, "rhead") == 0 {
+		// the region begins like something the lexer knows by its first letters (an XML declaration, a comment, CDATA)
+		sb.WriteString(rapid.SampledFrom([]string{"xml ", "xml\t", "xml\n", "php ", "=", "-", "!--", "[CDATA[", "/", "#", "!"}).Draw(t, "rheadtext"))
+	}
 	for k := rapid.IntRange(0, 4).Draw(t, "rn"); k > 0; k-- {
 		sb.WriteString(rapid.SampledFrom([]string{" x ", ".y", " if a ", "'" + g.tmpl[1] + "'", "\"" + g.tmpl[1] + "\"", `"a\"` + g.tmpl[1] + `"`, "'it\\'s'", ">", "<b>", "</script>", " ", "=", "\n",
 			// a region is opaque: closers of the construct it stands in do not end that construct
@@ -618,7 +624,13 @@ func (g *docgen) foreign() {
 		src = "<" + n + attrs + "/>"
 		g.classes["foreign-selfclosed"]++
 	} else {
-		src = "<" + n + attrs + wsp(t, 0) + ">" + g.foreignContent(n, other, 0, &hasTmpl) + "</" + randCase(t, n) + wsp(t, 0) + ">"
+		end := wsp(t, 0)
+		if g.tmpl[0] != "" && rapid.IntRange(0, 3).Draw(t, "endtagregion") == 0 {
+			// a region in the end tag (behind the name and whitespace) belongs to the token like anywhere else
+			end = " " + g.region() + wsp(t, 0)
+			hasTmpl = true
+		}
+		src = "<" + n + attrs + wsp(t, 0) + ">" + g.foreignContent(n, other, 0, &hasTmpl) + "</" + randCase(t, n) + end + ">"
 	}
 	tt := html.SVGToken
 	if n == "math" {
